@@ -24,6 +24,14 @@ def conv(v):
             return np.array(x).reshape([1] * int(v.get("ndim", 1)))
         if "opaque" in v:
             return Opaque(v)
+        if "matrix" in v:
+            a = np.array(v["matrix"], dtype=float).reshape(int(v["rows"]), int(v["width"]))
+            if "labels" in v:
+                import pandas as pd
+                return pd.DataFrame(a, columns=list(v["labels"]))
+            return a
+        if "matrix_shape" in v:
+            raise CannotRealise("matrix of shape %s" % (v["matrix_shape"],))
         if "seq_len" in v:
             raise CannotRealise("sequence of symbolic length %s" % v["seq_len"])
         return {k: conv(x) for k, x in v.items()}
@@ -88,6 +96,9 @@ def realise_arg(v):
             if nd == 1:
                 return np.array([val(0, j) for j in range(d0)])
             return np.array([[val(i, j) for j in range(d1)] for i in range(d0)]).reshape(d0, d1)
+        if d["opaque"] == "Cols2":
+            import pandas as pd
+            return pd.Index(list(meta.get("labels", [0])))
         if d["opaque"] == "Det":
             return types.SimpleNamespace(drift_state=meta.get("drift_state"))
         raise CannotRealise("opaque %s" % d["opaque"])
